@@ -148,6 +148,37 @@ pub struct ProtocolHash(u64);
 #[derive(Event, Serialize, Deserialize)]
 pub struct ProtocolMismatch;
 
+/// Verification hooks: thin wrappers exposing the crate-private hashing entry points.
+#[cfg(feature = "verif_hooks")]
+pub mod verif {
+    use super::*;
+
+    /// Calls the hashing entry point selected by `part` (in [`ProtocolPart`] order) for type `T`.
+    pub fn add_part<T>(hasher: &mut ProtocolHasher, part: u8, priority: usize) {
+        match part {
+            0 => hasher.replicate::<T>(priority),
+            1 => hasher.replicate_bundle::<T>(),
+            2 => hasher.add_client_event::<T>(),
+            3 => hasher.add_client_trigger::<T>(),
+            4 => hasher.add_server_event::<T>(),
+            5 => hasher.add_server_trigger::<T>(),
+            6 => hasher.make_event_independent::<T>(),
+            7 => hasher.make_trigger_independent::<T>(),
+            _ => panic!("unknown protocol part"),
+        }
+    }
+
+    /// Calls [`ProtocolHasher::finish`] and returns the raw value.
+    pub fn finish(hasher: ProtocolHasher) -> u64 {
+        hasher.finish().0
+    }
+
+    /// Returns the raw value.
+    pub fn value(hash: &ProtocolHash) -> u64 {
+        hash.0
+    }
+}
+
 #[cfg(test)]
 mod tests {
     use super::*;
